@@ -3,6 +3,7 @@ import re
 import z3
 from .util import *
 from .values import *
+from .interp import ordering
 from .models import (M, model, utf8_decode, utf8_encode, utf8_width, str_bytes, decode_all, it_next, to_iter, ListIt, values_eq,
                      lt_const, CharsIt, MapIt, py_str)
 
@@ -304,7 +305,7 @@ def _(I, ctx, *a):
     return s if ctx.cur_key.endswith('from_iter') else UNIT
 @model('re:^(std|core)::char::methods::<impl char>::(is_ascii_digit|is_ascii_alphabetic|is_ascii_alphanumeric|is_ascii_whitespace|is_ascii|is_whitespace|is_ascii_uppercase|is_ascii_lowercase)$',
        're:^char::methods::<impl char>::(is_ascii_digit|is_ascii_alphabetic|is_ascii_alphanumeric|is_ascii_whitespace|is_ascii|is_whitespace|is_ascii_uppercase|is_ascii_lowercase)$',
-       're:^core::num::<impl u8>::(is_ascii_digit|is_ascii_alphabetic|is_ascii_alphanumeric|is_ascii_whitespace|is_ascii|is_ascii_uppercase|is_ascii_lowercase)$')
+       're:^(?:core|std)::num::<impl u8>::(is_ascii_digit|is_ascii_alphabetic|is_ascii_alphanumeric|is_ascii_whitespace|is_ascii|is_ascii_uppercase|is_ascii_lowercase)$')
 def _(I, ctx, c):
     c = deref(c); what = ctx.cur_key.rsplit('::', 1)[1]
     def rng(lo, hi): return (lo <= c.e <= hi) if c.conc() else z3.And(z3.UGE(c.z(), lo), z3.ULE(c.z(), hi))
@@ -323,7 +324,7 @@ def _(I, ctx, c):
         for k in (0x85, 0xA0, 0x1680, 0x2028, 0x2029, 0x202F, 0x205F, 0x3000): r = b_or(r, one(k))
         return b_or(r, rng(0x2000, 0x200A))
     raise Unsupported(what)
-@model('re:^(core::)?char::methods::<impl char>::(to_ascii_lowercase|to_ascii_uppercase)$', 're:^core::num::<impl u8>::(to_ascii_lowercase|to_ascii_uppercase)$')
+@model('re:^(core::)?char::methods::<impl char>::(to_ascii_lowercase|to_ascii_uppercase)$', 're:^(?:core|std)::num::<impl u8>::(to_ascii_lowercase|to_ascii_uppercase)$')
 def _(I, ctx, c):
     c = deref(c); lower = ctx.cur_key.endswith('lowercase')
     lo, hi = (0x41, 0x5A) if lower else (0x61, 0x7A)
@@ -467,31 +468,31 @@ def _(I, ctx, v, n): return ListIt([copy_value(v) for _ in range(ctx.concretize(
 def _(I, ctx, v): return ListIt([v])
 @model('re:^(std::iter::|core::iter::)empty$')
 def _(I, ctx): return ListIt([])
-@model('re:^core::slice::<impl \\[.*\\]>::(split_at|split_at_mut)$')
+@model('re:^(?:core|std|alloc)::slice::<impl \\[.*\\]>::(split_at|split_at_mut)$')
 def _(I, ctx, r, n):
     l, lo, hi = seq_view(r); k = ctx.concretize(n)
     if k > hi - lo: raise Panic('mid > len')
     return TUPLE(ValRef(SliceV(l, lo, lo + k)), ValRef(SliceV(l, lo + k, hi)))
-@model('re:^core::slice::<impl \\[.*\\]>::(split_first|split_last)$')
+@model('re:^(?:core|std|alloc)::slice::<impl \\[.*\\]>::(split_first|split_last)$')
 def _(I, ctx, r):
     l, lo, hi = seq_view(r)
     if hi == lo: return NONE()
     if ctx.cur_key.endswith('split_first'): return SOME(TUPLE(ElemRef(l, lo), ValRef(SliceV(l, lo + 1, hi))))
     return SOME(TUPLE(ElemRef(l, hi - 1), ValRef(SliceV(l, lo, hi - 1))))
-@model('re:^core::slice::<impl \\[.*\\]>::(ends_with)$')
+@model('re:^(?:core|std|alloc)::slice::<impl \\[.*\\]>::(ends_with)$')
 def _(I, ctx, r, p):
     a, b = seq_items(r), seq_items(p)
     if len(b) > len(a): return False
     return ctx.branch(values_eq(I, ctx, a[len(a) - len(b):], b)) if b else True
-@model('re:^core::slice::<impl \\[.*\\]>::(reverse)$')
+@model('re:^(?:core|std|alloc)::slice::<impl \\[.*\\]>::(reverse)$')
 def _(I, ctx, r):
     l, lo, hi = seq_view(r); l[lo:hi] = l[lo:hi][::-1]; return UNIT
-@model('re:^core::slice::<impl \\[.*\\]>::(swap)$')
+@model('re:^(?:core|std|alloc)::slice::<impl \\[.*\\]>::(swap)$')
 def _(I, ctx, r, a, b):
     l, lo, hi = seq_view(r); i, j = ctx.concretize(a), ctx.concretize(b)
     if i >= hi - lo or j >= hi - lo: raise Panic('index out of bounds')
     l[lo + i], l[lo + j] = l[lo + j], l[lo + i]; return UNIT
-@model('re:^core::slice::<impl \\[.*\\]>::(concat|join)$', 're:^alloc::slice::<impl \\[.*\\]>::(concat|join)$', 're:^std::slice::<impl \\[.*\\]>::(concat|join)$')
+@model('re:^(?:core|std|alloc)::slice::<impl \\[.*\\]>::(concat|join)$', 're:^alloc::slice::<impl \\[.*\\]>::(concat|join)$', 're:^std::slice::<impl \\[.*\\]>::(concat|join)$')
 def _(I, ctx, r, *sep):
     out = []; first = True
     for x in seq_items(r):
@@ -553,3 +554,119 @@ def _(I, ctx, a, b):
 
 @model('re:^(std|core)::hint::must_use$', 'must_use')
 def _(I, ctx, v): return v
+
+
+# ------------------------------------------------------------------ VecDeque (same representation as Vec)
+@model('re:^(std::collections::)?VecDeque::(new|with_capacity)$', 're:^<(std::collections::)?VecDeque<.*> as Default>::default$')
+def _(I, ctx, *a): return VecV([])
+@model('re:^(std::collections::)?VecDeque::pop_front$')
+def _(I, ctx, r):
+    v = deref(r); return SOME(v.items.pop(0)) if v.items else NONE()
+@model('re:^(std::collections::)?VecDeque::pop_back$')
+def _(I, ctx, r):
+    v = deref(r); return SOME(v.items.pop()) if v.items else NONE()
+@model('re:^(std::collections::)?VecDeque::push_back$')
+def _(I, ctx, r, x): deref(r).items.append(x); return UNIT
+@model('re:^(std::collections::)?VecDeque::push_front$')
+def _(I, ctx, r, x): deref(r).items.insert(0, x); return UNIT
+@model('re:^(std::collections::)?VecDeque::(front|front_mut)$')
+def _(I, ctx, r):
+    v = deref(r); return SOME(ElemRef(v.items, 0)) if v.items else NONE()
+@model('re:^(std::collections::)?VecDeque::(back|back_mut)$')
+def _(I, ctx, r):
+    v = deref(r); return SOME(ElemRef(v.items, len(v.items) - 1)) if v.items else NONE()
+@model('re:^(std::collections::)?VecDeque::(get|get_mut)$')
+def _(I, ctx, r, idx):
+    v = deref(r); n = len(v.items)
+    if ctx.branch((idx.e < n) if idx.conc() else z3.ULT(idx.z(), n)):
+        return SOME(ElemRef(v.items, ctx.concretize(idx)))
+    return NONE()
+@model('re:^(std::collections::)?VecDeque::len$')
+def _(I, ctx, r): return BV(len(deref(r).items), 64)
+@model('re:^(std::collections::)?VecDeque::is_empty$')
+def _(I, ctx, r): return len(deref(r).items) == 0
+@model('re:^(std::collections::)?VecDeque::(iter|iter_mut)$')
+def _(I, ctx, r):
+    v = deref(r); return ListIt([ElemRef(v.items, i) for i in range(len(v.items))])
+@model('re:^<(std::collections::)?VecDeque<.*> as From<Vec<.*>>>::from$', 're:^<Vec<.*> as From<(std::collections::)?VecDeque<.*>>>::from$')
+def _(I, ctx, v): return v
+@model('re:^<(std::collections::)?VecDeque<.*> as FromIterator<.*>>::from_iter$')
+def _(I, ctx, it): return VecV(_drain(I, ctx, it))
+@model('re:^(std::option::)?Option::or$')
+def _(I, ctx, a, b): return a if a.variant == 'Some' else b
+@model('re:^(std::option::)?Option::(filter)$')
+def _(I, ctx, o, f):
+    if o.variant == 'None': return o
+    return o if ctx.branch(I.call_value(ctx, ctx.cur_crate, f, [FieldRef(o, 0)])) else NONE()
+@model('re:^(std::option::)?Option::(zip)$')
+def _(I, ctx, a, b): return SOME(TUPLE(a.fields[0], b.fields[0])) if a.variant == 'Some' and b.variant == 'Some' else NONE()
+@model('re:^(std::option::)?Option::(xor)$')
+def _(I, ctx, a, b):
+    if (a.variant == 'Some') != (b.variant == 'Some'): return a if a.variant == 'Some' else b
+    return NONE()
+@model('re:^(std::option::)?Option::(unwrap_unchecked)$')
+def _(I, ctx, o): return o.fields[0]
+@model('re:^(std::option::)?Option::(get_or_insert_with)$')
+def _(I, ctx, r, f):
+    o = deref(r)
+    if o.variant == 'None':
+        v = I.call_value(ctx, ctx.cur_crate, f, [])
+        o.variant, o.vidx, o.fields = 'Some', 1, [v]
+    return FieldRef(o, 0)
+@model('re:^(std::option::)?Option::(insert)$')
+def _(I, ctx, r, v):
+    o = deref(r); o.variant, o.vidx, o.fields = 'Some', 1, [v]; return FieldRef(o, 0)
+@model('re:^(std::option::)?Option::(replace)$')
+def _(I, ctx, r, v):
+    o = deref(r); old = Agg('Option', list(o.fields), o.variant, o.vidx)
+    o.variant, o.vidx, o.fields = 'Some', 1, [v]; return old
+
+
+@model('re:^<(?:Box|Rc|Arc|std::boxed::Box|std::rc::Rc|std::sync::Arc)<(.*)> as (PartialEq|PartialOrd|Ord|Eq)(<.*>)?>::(\\w+)$',
+       're:^<&+(?:mut )?(.*) as (PartialEq|PartialOrd|Ord)(<.*>)?>::(\\w+)$')
+def _fwd_cmp(I, ctx, a, b):
+    m = re.match(r'^<(?:(?:std::\w+::)?(?:Box|Rc|Arc)<(.*)>|&+(?:mut )?(.*)) as (\w+)(<.*>)?>::(\w+)$', ctx.cur_key)
+    inner = m.group(1) or m.group(2); trait = m.group(3); meth = m.group(5)
+    a1 = deref1(a); b1 = deref1(b)
+    if not isinstance(a1, Ref): a1 = ValRef(a1)
+    if not isinstance(b1, Ref): b1 = ValRef(b1)
+    key = f'<{inner} as {trait}>::{meth}'
+    if I.resolve_static(ctx.cur_crate, key) is not None:
+        return I.call(ctx, ctx.cur_crate, key, [a1, b1])
+    if trait == 'PartialEq':
+        r = values_eq(I, ctx, a1, b1)
+        return b_not(r) if meth == 'ne' else r
+    raise Unsupported('forwarded comparison ' + key)
+
+
+@model('re:^<(.*) as PartialOrd(<.*>)?>::(lt|le|gt|ge)$')
+def _(I, ctx, a, b):
+    m = re.match(r'^<(.*) as PartialOrd(<.*>)?>::(\w+)$', ctx.cur_key)
+    ty, op = m.group(1), m.group(3)
+    a0, b0 = deref(a), deref(b)
+    if isinstance(a0, BV):
+        return I.binop(ctx, {'lt': 'Lt', 'le': 'Le', 'gt': 'Gt', 'ge': 'Ge'}[op], a0, b0)
+    o = I.call(ctx, ctx.cur_crate, f'<{ty} as PartialOrd>::partial_cmp', [a, b])
+    if o.variant == 'None': return False
+    v = o.fields[0].variant
+    return {'lt': v == 'Less', 'le': v in ('Less', 'Equal'), 'gt': v == 'Greater', 'ge': v in ('Greater', 'Equal')}[op]
+@model('re:^<(.*) as Ord>::(max|min)$')
+def _(I, ctx, a, b):
+    m = re.match(r'^<(.*) as Ord>::(\w+)$', ctx.cur_key)
+    o = I.call(ctx, ctx.cur_crate, f'<{m.group(1)} as Ord>::cmp', [ValRef(a), ValRef(b)])
+    if m.group(2) == 'max': return a if o.variant == 'Greater' else b
+    return b if o.variant == 'Greater' else a
+@model('re:^<(std::cmp::)?Ordering as PartialEq>::(eq|ne)$')
+def _(I, ctx, a, b):
+    r = deref(a).variant == deref(b).variant
+    return (not r) if ctx.cur_key.endswith('ne') else r
+@model('re:^(std::cmp::)?Ordering::(is_lt|is_le|is_gt|is_ge|is_eq|is_ne)$')
+def _(I, ctx, o):
+    v = deref(o).variant; w = ctx.cur_key.rsplit('::', 1)[1]
+    return {'is_lt': v == 'Less', 'is_le': v != 'Greater', 'is_gt': v == 'Greater', 'is_ge': v != 'Less', 'is_eq': v == 'Equal', 'is_ne': v != 'Equal'}[w]
+@model('re:^(std::cmp::)?Ordering::(then|then_with|reverse)$')
+def _(I, ctx, o, *r):
+    w = ctx.cur_key.rsplit('::', 1)[1]
+    if w == 'reverse': return ordering({'Less': 1, 'Equal': 0, 'Greater': -1}[o.variant])
+    if o.variant != 'Equal': return o
+    return r[0] if w == 'then' else I.call_value(ctx, ctx.cur_crate, r[0], [])
